@@ -1,5 +1,8 @@
 mod autolink;
 mod inlines;
+#[cfg(comrak_verif)]
+#[doc(hidden)]
+pub use inlines::verif_hooks as verif_inline_hooks;
 #[cfg(feature = "shortcodes")]
 pub mod shortcodes;
 mod table;
